@@ -242,6 +242,11 @@ class SymCtx(BaseCtx):
                 return
         for label, term, info in pend:
             r, s = self._query(term, self.oblig_timeout_ms)
+            if r == z3.unknown:
+                # one retry with a fresh solver and four times the budget (a loaded machine must not turn a
+                # millisecond query into an inconclusive run); still unknown => inconclusive, never a pass
+                r, s = self._query(term, 4 * self.oblig_timeout_ms)
+                st["retried_unknown"] = st.get("retried_unknown", 0) + 1
             if len(pend) == 1 and len(st["samples"]) < 2:
                 st["samples"].append({"case": self.case_id, "labels": [label], "result": str(r), "smt2": s.to_smt2()[:2500]})
             if r == z3.unsat:
